@@ -61,6 +61,10 @@ def run_job(job):
 def run_forest(job, ob):
     for o in probkit.forest_tables():
         if o.exc is not None:
+            from ..harness import exc_origin
+            if exc_origin(o.exc) == "harness":
+                ob.fail_harness(f"harness raised: {o.exc!r}")
+                continue
             ob.fail_harness(f"raised {o.exc!r}")
             continue
         r = o.value
@@ -78,6 +82,10 @@ def run_de_moor(job, ob):
     D = job["D"]
     for o in probkit.de_moor_tables(D):
         if o.exc is not None:
+            from ..harness import exc_origin
+            if exc_origin(o.exc) == "harness":
+                ob.fail_harness(f"harness raised: {o.exc!r}")
+                continue
             ob.fail_harness(f"raised {o.exc!r}")
             continue
         r = o.value
@@ -94,6 +102,10 @@ def run_de_moor(job, ob):
 def run_mirjalili(job, ob):
     for o in probkit.mirjalili_tables(job["m"], job["Q"], job["D"], job["weekday"]):
         if o.exc is not None:
+            from ..harness import exc_origin
+            if exc_origin(o.exc) == "harness":
+                ob.fail_harness(f"harness raised: {o.exc!r}")
+                continue
             ob.fail_harness(f"raised {o.exc!r}")
             continue
         r = o.value
